@@ -29,8 +29,27 @@ pub fn make_engine(case: &Case, oracles: Oracles) -> Result<Engine, Fail> {
             let (mut bytes, model) = crate::synth::foreign_start(*seed, case.version, &case.pool)?;
             let parsed = crate::refparse::parse(&bytes).map_err(|e| Fail::new("harness|parse", e))?;
             for (d, sel) in devs.iter() {
-                let nd = crate::props::c16::ALL_DEVS.len() + 1;
+                let nd = crate::props::c16::ALL_DEVS.len() + 2;
                 if *d as usize % nd == nd - 1 {
+                    // stale bytes in unallocated directory entries (CLSID, state bits, times,
+                    // start sector, size of an object that once lived there): accepted by both
+                    // open modes; whatever is created in such a slot must start out fresh
+                    for (i, e) in parsed.entries.iter().enumerate() {
+                        if e.typ == 0 {
+                            let off = parsed.entry_offsets[i];
+                            for (k, b) in bytes[off + 80..off + 96].iter_mut().enumerate() {
+                                *b = 0x71 + k as u8;
+                            }
+                            bytes[off + 96..off + 100].copy_from_slice(&(0xDEAD_0000u32 | *sel as u32).to_le_bytes());
+                            bytes[off + 100..off + 108].copy_from_slice(&0x01D0_1234_5678_9ABCu64.to_le_bytes());
+                            bytes[off + 108..off + 116].copy_from_slice(&0x01D1_1111_2222_3333u64.to_le_bytes());
+                            bytes[off + 116..off + 120].copy_from_slice(&5u32.to_le_bytes());
+                            bytes[off + 120..off + 124].copy_from_slice(&1234u32.to_le_bytes());
+                        }
+                    }
+                    continue;
+                }
+                if *d as usize % nd == nd - 2 {
                     // legacy writers: uninitialised upper 32 bits of a version-3 stream size
                     // (MS-CFB 2.6.3 recommends that readers ignore them; Version::stream_len_mask does)
                     if case.version == 3 {
